@@ -114,6 +114,18 @@ def run(ctx):
         if n is None:
             rep.unk('U3', 'a_utf_encode', 'length on path %s is not a constant: %r' % (lf.pc, r), loc=loc)
             continue
+        if lo == 0 and hi < (1 << 12):
+            # a test of the whole (small) code point against zero arrives as a bit-level condition: x == 0 / x != 0 on this path?
+            try:
+                allz = ONE
+                for i_ in range(max(1, hi.bit_length())):
+                    allz = bit.band(allz, bit.bnot(X.bits[i_]))
+                if bit.implies(lf.pc_raw, allz):              # "all bits zero" is false on this path
+                    lo = 1
+                elif bit.implies(lf.pc_raw, bit.bnot(allz)):   # ... is true on this path
+                    hi = 0
+            except Exception:
+                pass
         sym = 'a_utf_encode[len=%d]' % n
         cl = classes.get(n)
         if cl is None:
@@ -387,6 +399,8 @@ def length_loop(ctx):
             raise Unsupported('loop does not have the (cursor, remaining, count) shape: %s' % roles)
         s1, nv = tx.backs[0]
         dsym = tx.sym[roles['d']] if 'd' in roles else dom.sym('d', integer=True, nonnegative=True)
+        if len(getattr(dom, 'calls', [])) > (2 if 'd' in roles else 1):
+            raise Unsupported('a pass of the loop calls the decoder several times (unrolled?): outside the one-sequence-per-pass template')
         probs = []
         if indexed:
             o = tx.sym[roles['pos']]
@@ -639,6 +653,12 @@ def lead_loop(ctx, lk):
             over = any(o_rel_num(c) == '>' for c in s_.pc_raw)
             notover = any(o_rel_num(c) in ('<=', '<') for c in s_.pc_raw)
             if not over and not notover:
+                # nothing counted yet (count == 0 on this path): one count per pass (checked above), so no pass has run, the cursor
+                # still stands at the start and cannot have overshot - returning the count as it is needs no comparison
+                zero = any(isinstance(c, bit.Cond) and c.a == L and dom.concrete(c.b) == 0 and ((c.pred == 'eq' and c.pos) or (c.pred == 'ne' and not c.pos))
+                           for c in s_.pc_raw)
+                if zero and r_ == L:
+                    continue
                 probs.append('an exit does not compare the cursor with num (%s)' % (s_.pc_raw,))
             exp = L.add(-1) if over else L
             if r_ != exp:
